@@ -92,6 +92,15 @@ class Registry:
         kw["name"] = name
         self.relationals.append(kw)
 
+    def frame(self, name, **kw):
+        kw.setdefault("carry", [])
+        kw.setdefault("memo", ["_input_cols", "_input_col_dim"])
+        kw.setdefault("index", [])
+        kw.setdefault("tags", ("C02",))
+        if not hasattr(self, "frames"):
+            self.frames = {}
+        self.frames[name] = kw
+
     # -- queries ------------------------------------------------------------------
     def has_contract(self, q):
         return q in self.contracts
@@ -634,8 +643,8 @@ def _spec_unchanged(self, e, fr):
         else:
             cur = self.ev(a, fr)
             fake = ast.Call(func=ast.Name(id="old", ctx=ast.Load()), args=[a], keywords=[])
-            ov = _spec_old(self, fake, fr)
-            parts.append(self.deep_eq(cur, ov, run.heap, old.heap))
+            ov = _spec_old(self, fake, fr)       # imported into the current heap
+            parts.append(self.deep_eq(cur, ov, run.heap, run.heap))
     return AND(*parts)
 
 
